@@ -33,6 +33,7 @@ WORDS = [
       ('S', 2, 5), ('D', 6), ('S', 1, 2), ('D', 6)]),
 ]
 _DB = {}
+FILE_TIME = 1600000000
 
 SPLINE_SY = {
     'inside': ([-291.7, -183.1, -15.74, 10.65, 38.78, 168.3],
@@ -174,4 +175,9 @@ def write_yaml(pars, name='pars'):
     path = os.path.join(cs.tmpdir(), '%s-%d.yml' % (name, os.getpid()))
     with open(path, 'w') as f:
         yaml.safe_dump(pars, f)
+    # the file's timestamps are part of the input: always the same instant,
+    # as when a driver rewrites its parameter file several times within one
+    # second (whatever is remembered per path and modification time is then
+    # stale, on every run and not only on a fast machine)
+    os.utime(path, (FILE_TIME, FILE_TIME))
     return path
